@@ -18,9 +18,12 @@ REG.macro("lay_link", ["g", "L"],
 REG.macro("lay_disjoint", ["g", "L"],
           "forall(LayerName, LayerName, Node, lambda l1, l2, n: implies((l1 in layers_of(L)) and (l2 in layers_of(L)) and lay_in(g, L, l1, n) and lay_in(g, L, l2, n), l1 == l2))")
 REG.macro("lay_sides", ["L", "A", "Bs", "FA", "FB"],
+          # {f2m(f) | f in FA} == lm_mods(L, A)  and  {f2m(f) | f in FB} == the union of lm_mods(L, B), B in Bs  -- each as its two inclusions (every quantifier then has a trigger)
           "forall(Filter, lambda f: implies((f in FA) or (f in FB), is_name(f))) and "
-          "forall(Mod, lambda m: exists(Filter, lambda f: (f in FA) and m == f2m(f)) == (m in lm_mods(L, A))) and "
-          "forall(Mod, lambda m: exists(Filter, lambda f: (f in FB) and m == f2m(f)) == exists(LayerName, lambda B: (B in Bs) and (m in lm_mods(L, B))))")
+          "forall(Filter, lambda f: implies(f in FA, f2m(f) in lm_mods(L, A))) and "
+          "forall(Mod, lambda m: implies(m in lm_mods(L, A), exists(Filter, lambda f: (f in FA) and m == f2m(f)))) and "
+          "forall(Filter, lambda f: implies(f in FB, exists(LayerName, lambda B: (B in Bs) and (f2m(f) in lm_mods(L, B))))) and "
+          "forall(LayerName, Mod, lambda B, m: implies((B in Bs) and (m in lm_mods(L, B)), exists(Filter, lambda f: (f in FB) and m == f2m(f))))")
 REG.macro("lay_hyp", ["g", "L", "A", "Bs", "S", "O", "subj"],
           "WF(g) and lay_link(g, L) and lay_disjoint(g, L) and (A in layers_of(L)) and (not (A in Bs)) and forall(LayerName, lambda B: implies(B in Bs, B in layers_of(L))) and "
           "forall(LayerName, Mod, lambda l, m: implies(m in lm_mods(L, l), not is_group(m))) and "
